@@ -612,28 +612,28 @@ fn pairing(content: &[u8], whole: &Beatmap) -> Result<(), (String, String)> {
             pairs.push((ident(h), format!("{s:?}"), h.start_time));
         }
     }
-    pairs.sort_by(|a, b| a.2.total_cmp(&b.2)); // stable
     if pairs.len() != whole.hit_objects.len() {
         // the header of the whole file may differ (e.g. sections repeated after [HitObjects]); not comparable
         return Ok(());
     }
-    for (i, ((ho, so, _), (h, s))) in pairs
+    // The property fixes which sound belongs to which object and that objects are ordered by start
+    // time; it does not fix the order among objects with equal start times. So: per start time, the
+    // multiset of (object, sound) pairs of the whole file equals that of the single-line decodes.
+    let mut got: Vec<(u64, String, String)> = whole
+        .hit_objects
         .iter()
-        .zip(whole.hit_objects.iter().zip(whole.hit_sounds.iter()))
-        .enumerate()
-    {
-        let hw = ident(h);
-        let sw = format!("{s:?}");
-        if *ho != hw {
+        .zip(whole.hit_sounds.iter())
+        .map(|(h, s)| (h.start_time.to_bits(), ident(h), format!("{s:?}")))
+        .collect();
+    let mut exp: Vec<(u64, String, String)> = pairs.into_iter().map(|(i, s, t)| (t.to_bits(), i, s)).collect();
+    got.sort();
+    exp.sort();
+    for (g, e) in got.iter().zip(exp.iter()) {
+        if g != e {
+            let class = if g.0 == e.0 && g.1 == e.1 { "sound-not-paired" } else { "objects-differ-from-their-lines" };
             return Err((
-                "object-order-not-stable".into(),
-                format!("object {i}: whole file has {hw}, stable sort of single-line decodes has {ho}"),
-            ));
-        }
-        if *so != sw {
-            return Err((
-                "sound-not-paired".into(),
-                format!("object {i} ({hw}): sound {sw} but its own line says {so}"),
+                class.into(),
+                format!("whole file has ({}, sound {}), its own line says ({}, sound {})", g.1, g.2, e.1, e.2),
             ));
         }
     }
